@@ -6,6 +6,7 @@ from pathlib import Path
 VERIF = Path(__file__).resolve().parent.parent
 REPO = Path(os.environ.get("VERIF_REPO", "/repo"))
 BUILD = VERIF / "build"
+(BUILD / "tmp").mkdir(parents=True, exist_ok=True)       # scratch space of every check (threads use it from the first moment)
 COQ = VERIF / "coq"
 OCAML = VERIF / "ocaml"
 HARNESS = VERIF / "harness"
